@@ -106,12 +106,18 @@ def gen_bytes(rng):
 LIMIT = "ulimit -v 2500000; exec \"$@\""
 
 
+SLOWEST = [0.0]
+
+
 def run_tool(ctx, tool, args, cwd):
     cmd = ["/bin/sh", "-c", LIMIT, "sh", os.path.join(ctx.bindir, tool)] + args
     import subprocess
+    import time
     env = {"PATH": "/usr/bin:/bin", "HOME": cwd, "TMPDIR": cwd}
     try:
+        t0 = time.time()
         p = subprocess.run(cmd, cwd=cwd, env=env, stdout=subprocess.PIPE, stderr=subprocess.PIPE, timeout=20)
+        SLOWEST[0] = max(SLOWEST[0], time.time() - t0)
         return p.returncode, p.stdout, p.stderr.decode("utf-8", "replace")
     except subprocess.TimeoutExpired as e:
         return -9, e.stdout or b"", "TIMEOUT"
@@ -256,6 +262,7 @@ def run(ctx):
                                    "input": core.to_jsonable(payload) if kind in ("struct", "yamltext") else (payload.hex() if kind == "bytes" else
                                             {a: [b[0], core.to_jsonable(b[1])] for a, b in payload["files"].items()}),
                                    "opts": payload["opts"] if kind == "graph" else None, "class": "c08-robustness"})
+    dist["slowest_tool_run_seconds"] = round(SLOWEST[0], 2)      # the limit is 20 s
     return {"evaluations": len(jobs) * 4, "distinct_nontrivial": nt, "rule": RULE,
             "samples": [core.to_jsonable(j[1]) for j in jobs[:3] if j[0] == "struct"][:2] or ["bytes"], "distribution": dist,
             "disagreements_checked": len(ctx.violations)}
